@@ -50,17 +50,23 @@ CHECKS = {
              "LAST value at mapped ones; what any other member reads afterwards; members without a common position never see each other's writes; and the one-operation functional meaning used for gradients equals this "
              "semantics. Tie: 500 (thorough 4000) histories of views of views (basic indexing, reshape, transposes, squeeze/expand_dims, ravel), reads, in-place updates on ANY member (setitem basic/int-array with repeats/"
              "bool with broadcast values, augmented assignment, out= with and without where=), dropped members, Fortran-ordered owners: after EVERY statement values, pairwise shares_memory, .base, object identity and "
-             "constant flags are compared with the NumPy mirror (the same statements executed on arrays) and with the functional model evaluated in Coq.",
+             "constant flags are compared with the NumPy mirror (the same statements executed on arrays) and with the functional model evaluated in Coq. Pointer level: Model/Heap.v transcribes Tensor._op / _in_place_op / "
+             "DuplicatingGraph / the shape setter as a heap of tensor, operation, weak-collection and array objects; theorems (Proofs/HeapP*.v): the heap invariant holds in every heap reachable by leaf / operation / view / in-place "
+             "statements, the in-place machinery never gets stuck on it, shape assignment keeps the recorded graph readable; tie: after EVERY statement of 400 (2500) histories the whole object graph reachable from the held tensors "
+             "(creators, variables, _base, _view_children, _ops, arrays with .base and buffer) is compared in Coq with the model's heap.",
         design_ref="DESIGN.md 3 (C04)",
-        note="Partial: the refinement 'placeholder/replay machinery of _in_place_op computes the buffer semantics' is established by the correspondence, not proved (no pointer-level model). Index maps of view ops are "
-             "computed by NumPy itself. Known finding: identity-returning view ops (np.squeeze with nothing to squeeze). No axioms.",
+        note="Partial: that the pointer-level result DENOTES the buffer semantics (refinement Heap -> Families) is established by the two correspondences together, not proved. The id-order encoding of acyclicity in the heap invariant "
+             "is not preserved by the shape setter (counterexamples in Proofs/HeapShapeP.v), so histories with shape assignments rest on the correspondence. Index maps of view ops are computed by NumPy itself. Known finding: "
+             "identity-returning view ops (np.squeeze with nothing to squeeze). No axioms.",
         technique="Coq proofs on buffer/index-map semantics + statement-by-statement differential against NumPy + functional-model correspondence by vm_compute",
     ),
     "C05": dict(
         text="Machine-checked (Coq): an in-place update means ONE operation of the exact registry (keep-mask (.) old contents + scatter of the written values, later writes winning); it is proved to compute the assignment's "
              "buffer semantics and to have an exact VJP, so C01's adjoint theorem applies to the equivalent purely functional program: reads before a mutation differentiate through old values, later ones through new values, "
              "overwritten elements pass nothing to old contents, masked-out elements pass their gradient on, a mutated tensor's gradient is w.r.t. its current value. Tie: family histories + terminal built from reads before and after "
-             "mutations + backward(); forward values of all tensors and gradients of all memory owners compared exactly with the model on the functional program (40% of cases with memory guarding off).",
+             "mutations + backward(); forward values of all tensors and gradients of all memory owners compared exactly with the model on the functional program (40% of cases with memory guarding off); a sweep over the whole operation "
+             "catalogue in which an operand is updated in place AFTER the forward pass (backward must give the gradients of the program without the update). Pointer level (Model/Heap.v): after a successful in-place operation every "
+             "recorded operation keeps its class and reads either the same tensor or a NEW tensor carrying the old creator, array and consumer set; the target moves to a fresh buffer (theorems C05_heap_*).",
         design_ref="DESIGN.md 3 (C05)",
         note="Partial: that MyGrad's placeholder graph IS that functional program is established by exact correspondence, not proved. 'No gradient' and 'all-zero gradient' are identified for fully overwritten tensors. "
              "Gradients of view members are C06. No axioms.",
@@ -81,8 +87,8 @@ CHECKS = {
         text="Machine-checked proofs (Coq) over the history-level model Model/GraphP.v, for EVERY history of operations / backward / clear_graph / null_grad: after L.backward() L and every tensor "
              "upstream of it (through creators not cleared before) has no creator and no recorded consumers; every tensor whose gradient changed is among them; gradients outside the traversal are "
              "untouched; a view op keeps gradients, a non-view op drops exactly those of its inputs; each pass computes the adjoint on its own (nothing accumulates across passes). Tie: histories run on /repo and on the "
-             "model (exact gradients and flags after every backward), reference-counting liveness with gc disabled vs the model's strong-reference closure (creator edges + Tensor._base), and a bit-identical "
-             "3x repetition oracle on float programs.",
+             "model (exact gradients and flags after every backward), reference-counting liveness with gc disabled vs the model's strong-reference closure (creator edges + Tensor._base), a placeholder census and a release sweep over "
+             "the operation catalogue, the pointer-level object-graph correspondence (Model/Heap.v) with backward() statements (which tensors hold a gradient after every statement), and a bit-identical 3x repetition oracle on float programs.",
         design_ref="DESIGN.md 3 (C07)",
         note="Partial: 'freed by reference counting alone' is decided by the liveness correspondence (CPython refcounting assumed), not by a theorem about a heap model; placeholders of in-place updates are not in "
              "these histories; bit-identical repetition is an implementation-side test. Trusted: Coq kernel, harness/exactops.py translation, prog_impl.py runner. No axioms.",
@@ -131,7 +137,9 @@ CHECKS = {
              "(C13_same_final_state_without_failing_statements, by induction over histories); the lock automaton restores every flag once the failed operation's locks are released. Fault enumeration on /repo: "
              "13 kinds of failing statements (non-view ops, view ops, in-place updates incl. shape assignment) inserted at random positions of family histories, some after a mid-history backward: (a) the statement raises, "
              "(b) every live tensor is bit-for-bit as before (value, shape, flag, base, sharing, writeable flag, gradient, creator/consumer state), (c) final values and gradients equal those of the program without the "
-             "failing statements (run separately), (d) the functional model agrees.",
+             "failing statements (run separately), (d) the functional model agrees, (e) pointer level: Model/Heap.v transcribes _in_place_op with its failure paths; theorems: a failing in-place statement (kernel failure, stale-view KeyError) "
+             "returns tensor, operation, weak-collection and array tables EXACTLY as they were, in every heap reachable by leaf / operation / view / in-place statements; tie: the object graph after every statement of 400 (2500) histories "
+             "with 50% failing in-place statements, backward(), clear_graph() and shape assignments equals the model's heap.",
         design_ref="DESIGN.md 3 (C13)",
         note="The model's failure points are 'validation fails before anything is touched'; that the real rollback (restore_old_graph after placeholders replaced the public tensors) achieves this is what the fault "
              "enumeration checks. Faults inside NumPy kernels are not injected. No axioms.",
